@@ -71,30 +71,35 @@ Proof. exact parser_cursor_pins. Qed.
 (* ---- tools: exception coverage of execute() relative to the may_raise table --------------------------- *)
 From Coq Require Import String.
 Open Scope string_scope.
-Theorem C20_no_escape_validate_modulo_may_raise : no_escape (L "validate") flow_validate_sites flow_validate_raises = true.
-Proof. exact no_escape_validate. Qed.
-Theorem C20_no_escape_write_modulo_may_raise : no_escape (L "write") flow_write_sites flow_write_raises = true.
-Proof. exact no_escape_write. Qed.
-Theorem C20_no_escape_compile_grammar_modulo_may_raise :
-  no_escape (L "compile_grammar") flow_compile_grammar_sites flow_compile_grammar_raises = true.
-Proof. exact no_escape_compile_grammar. Qed.
+(* validate: every content-dependent stage is covered; the single escape is Path.exists() on the file_path *)
+Theorem C20_validate_only_escape_is_path_exists :
+  escapes (L "validate") (flow_validate_sites ++ flow_validate_raises)%list = [(L "path.exists", 0%N, L "OSError")].
+Proof. exact validate_only_escape_is_path_exists. Qed.
 Theorem C20_no_escape_helpers_modulo_may_raise :
   no_escape (L "validate") flow_validate_helper_error_envelope_sites [] = true /\
   no_escape (L "write") flow_write_helper_error_envelope_sites [] = true /\
   no_escape (L "compile_grammar") flow_compile_grammar_helper_error_response_sites [] = true.
 Proof. exact no_escape_helpers. Qed.
 
-(* eject: the full statement is false of the faithful structure -- finding C20-eject-json-holographic *)
-Definition C20_no_escape_eject_full : Prop := no_escape (L "eject") flow_eject_sites flow_eject_raises = true.
+(* the full statement (nothing escapes any tool) is false of the faithful structure: findings
+   C20-eject-json-holographic / -nested-meta, C20-gbnf-contract-nonstring-type,
+   C20-write-baseline-foreign-exception (through C20-lexer-int-digit-limit), C20-path-name-too-long *)
+Definition C20_no_escape_full : Prop := no_escape_full.
+Theorem C20_no_escape_full_refuted : ~ no_escape_full.
+Proof. exact no_escape_full_refuted. Qed.
+Theorem C20_validate_path_exists_refuted : no_escape (L "validate") flow_validate_sites flow_validate_raises = false.
+Proof. exact no_escape_validate_refuted. Qed.
 Theorem C20_eject_json_refuted : no_escape (L "eject") flow_eject_sites flow_eject_raises = false.
 Proof. exact no_escape_eject_refuted. Qed.
-Theorem C20_eject_only_escape_is_json_dumps :
-  escapes (L "eject") (flow_eject_sites ++ flow_eject_raises)%list = [(L "json.dumps", 0%N, L "TypeError")].
-Proof. exact eject_only_escape_is_json_dumps. Qed.
-Theorem C20_no_escape_eject_partial :
-  filter (fun u => negb (str_eqb (fst (fst u)) (L "json.dumps")))
-         (escapes (L "eject") (flow_eject_sites ++ flow_eject_raises)%list) = [].
-Proof. exact no_escape_eject_partial. Qed.
+Theorem C20_write_baseline_reparse_refuted : no_escape (L "write") flow_write_sites flow_write_raises = false.
+Proof. exact no_escape_write_refuted. Qed.
+Theorem C20_compile_grammar_contract_refuted :
+  no_escape (L "compile_grammar") flow_compile_grammar_sites flow_compile_grammar_raises = false.
+Proof. exact no_escape_compile_grammar_refuted. Qed.
+
+(* what escapes is exactly the list ExnFlow.known_escapes, tool by tool; apart from it nothing escapes *)
+Theorem C20_no_escape_partial : no_escape_partial_stmt.
+Proof. exact no_escape_partial. Qed.
 
 (* every return of every execute() yields a dict with "status" or "validation_status" *)
 Theorem C20_envelopes_have_status :
@@ -108,9 +113,11 @@ Proof. exact server_adds_no_handler. Qed.
 
 (* non-vacuity: dropping the handler around the parse stage of a tool flips its obligation *)
 Theorem C20_no_escape_detects_unprotected_parse :
-  no_escape (L "validate") (strip_handlers (L "parse_with_warnings") flow_validate_sites) flow_validate_raises = false /\
-  no_escape (L "write") (strip_handlers (L "tokenize") flow_write_sites) flow_write_raises = false /\
-  no_escape (L "compile_grammar") (strip_handlers (L "parse") flow_compile_grammar_sites) flow_compile_grammar_raises = false.
+  (count_escapes (L "validate") flow_validate_sites
+   < count_escapes (L "validate") (strip_handlers (L "parse_with_warnings") flow_validate_sites))%nat /\
+  (count_escapes (L "write") flow_write_sites < count_escapes (L "write") (strip_handlers (L "tokenize") flow_write_sites))%nat /\
+  (count_escapes (L "compile_grammar") flow_compile_grammar_sites
+   < count_escapes (L "compile_grammar") (strip_handlers (L "parse") flow_compile_grammar_sites))%nat.
 Proof. exact no_escape_detects_unprotected_parse. Qed.
 
 (* every callee occurring in the four execute() bodies is classified in the assumption table *)
